@@ -275,6 +275,8 @@ func (r *SparseReal64Matrix) Jacobian(f func(ConstVector) ConstVector, x_ MagicV
      m = x.Dim()
     *r = *NullSparseReal64Matrix(n, m)
   }
+  // remove previous entries
+  r.Reset()
   // copy derivatives
   for i := 0; i < n; i++ {
     for j := 0; j < m; j++ {
@@ -298,6 +300,8 @@ func (r *SparseReal64Matrix) Hessian(f func(ConstVector) ConstScalar, x_ MagicVe
   x.Variables(2)
   // evaluate function
   y := f(x)
+  // remove previous entries
+  r.Reset()
   // copy second derivatives
   for i := 0; i < n; i++ {
     for j := 0; j < m; j++ {
